@@ -42,9 +42,28 @@ with experiment(root / "ws", "echo", run_mode=RunMode.GENERATE_ONLY, port=-1) as
         t = Echo(x=objs[r], n=i).tag("top", "v%d" % i); tags["top"] = "v%d" % i
         try:
             t.submit()
-            out.append({"dir": str(t.__xpm__.job.path), "tags": tags, "echo": str(t.out)})
+            rec = {"dir": str(t.__xpm__.job.path), "tags": tags, "echo": str(t.out)}
         except Exception as e:
             out.append({"error": repr(e)[:200]})
+            continue
+        # a task directory whose parameter file also defines other submitted tasks: loading it gives this task
+        if i % 3 == 0:
+            from experimaestro.core.serialization import from_task_dir
+            from xvschema.cfg import K, T0
+            try:
+                up = T0(n=1000 + i).submit()
+                t2 = Echo(x=K(a=i, c=up, l=[T0(n=2000 + i).submit()]), n=5000 + i)
+                t2.submit()
+                problems = []
+                for as_instance in (False, True):
+                    o = from_task_dir(t2.__xpm__.job.path, as_instance=as_instance)
+                    name = type(o).__mro__[0].__name__.split(".")[0] if not as_instance else type(o).__name__.split(".")[0]
+                    if "Echo" not in type(o).__qualname__ or getattr(o, "n", None) != 5000 + i:
+                        problems.append(f"from_task_dir(as_instance={as_instance}) returns a {type(o).__qualname__} (n={getattr(o, 'n', None)}) instead of the task of the directory")
+                rec["taskdir"] = problems
+            except Exception as e:
+                rec["taskdir"] = ["from_task_dir raised " + repr(e)[:200]]
+        out.append(rec)
 print("JOBS" + json.dumps(out))
 '''
 
@@ -144,6 +163,7 @@ def run(graphs_roots, repo_src=REPO_SRC):
                     same(g, r, e["graph"], e["graph"]["root"], {}, problems)
                     if e["tags"] != j["tags"]:
                         problems.append(f"tags seen by the task {e['tags']} differ from the configured ones {j['tags']}")
+                problems += ["task directory: " + x for x in j.get("taskdir", [])]
             out.append(problems)
         return out, None
     finally:
